@@ -1,3 +1,4 @@
+mod asmref;
 mod engine;
 mod isa;
 mod props;
